@@ -652,6 +652,13 @@ def families(tier, seed):
                        expect=("eshell-outer-surface-voxel-missing", "eshell-body-voxel-missing", "eshell-inner-surface-voxel-set",
                                "eshell-inner-solid-voxel-set", "eshell-outside-voxel-set")))
 
+    # every integer radius up to beyond a 48-box on a few centres: radii >= 13 are the first for which lattice points lie
+    # exactly on the sphere in general position (12,5,0), (15,8,0) ... - where a rearranged inequality rounds differently
+    few48 = lambda b: [(b[0] // 2, b[1] // 2, b[2] // 2), (0, b[1] // 2, b[2] - 1), (b[0] // 2 - 1, b[1] // 2 + 1, b[2] // 2)]  # noqa: E731
+    fams.append(Family("sphere-48-every-radius", _sphere_space([(48, 48, 48)], few48, lambda b: list(range(1, 51))), ex_sphere,
+                       expect=("sphere-surface-voxel-missing", "sphere-outside-voxel-set")))
+    fams.append(Family("cylinder-48-every-radius", _cyl_space([(48, 48, 40)], few48, lambda b: list(range(1, 51)), lambda b: [1, 24, b[2] + 3]), ex_cylinder,
+                       expect=("cylinder-rim-voxel-missing", "cylinder-equals-analytic-solid")))
     if not quick:
         big = [(48, 48, 48), (48, 40, 32)]
         lat5 = lambda b: _lattice(b, 5)  # noqa: E731
